@@ -430,7 +430,7 @@ fn to_base_36(len: usize, number: i32) -> String {
 
 fn parse_base_36(number: &mut i32, ch: char) -> EngineResult<()> {
     if let Some(digit) = ch.to_digit(36) {
-        *number = *number * 36 + digit as i32;
+        *number = number.saturating_mul(36).saturating_add(digit as i32);
         Ok(())
     } else {
         Err(anyhow::Error::msg("Invalid base 36 digit"))
